@@ -22,12 +22,10 @@
      only - a strict response-parser model does not exist.  The keep-alive DECISIONS are modelled
      (Model/WireResp.v: the framing / Connection choices of StreamResponse._prepare_headers, what web_protocol
      then does, what HttpResponseParser concludes) and compared with the real endpoints on every run:
-     C02_keepalive_agree_refuted : the full statement is FALSE of the faithful model - HTTP/1.0 keep-alive
-       request, StreamResponse with a body and no length: close-delimited body on a connection the server
-       keeps open (`keep_alive = False` clears a local, self._keep_alive was stored before).  Replayed on the
-       implementation: known finding C02-h10-keepalive-close-delimited.
-     C02_keepalive_agree_partial : outside that family the client never reuses a connection the server
-       closes and never waits for the end of a connection the server keeps open. *)
+     C02_keepalive_agree : FULL - for every response StreamResponse prepares, the client never reuses a connection
+       the server closes and never waits for the end of a connection the server keeps open (refuted until fix 796e67c by
+       HTTP/1.0 keep-alive + length-less body; the generated flag h10_nolength_clears_stored_keepalive follows the code).
+     C02_expect_continue_no_deadlock : the client creates the 100-continue waiter only when the server sends a 100. *)
 From AV Require Import Lib.Base Lib.BytesX Generated.HttpGen Generated.WireGen Model.Writer Model.Http Model.Wire
   Model.WireResp
   Proofs.HttpSeg Proofs.HttpSegEx Proofs.WireLines Proofs.WireRoundtrip Proofs.WireKeepalive Proofs.WireExamples
@@ -167,20 +165,30 @@ Proof. exact ex_keepalive. Qed.
 Print Assumptions C02_keepalive_examples.
 
 (* ------------------------------------------------------------------ 4. keep-alive, both ends (decisions) *)
-(* Full statement (for every response StreamResponse prepares the two ends' decisions are safe together):
-   refuted below.  With the excluded family named explicitly: *)
-Theorem C02_keepalive_agree_partial : forall c r h keeps,
-  server_prepare c r = SHead h keeps -> h10_close_delimited_kept c r = false ->
+(* Full statement: for every response StreamResponse prepares, the two ends' decisions are safe together - the client
+   never reuses a connection the server closes and never waits for the end of a connection the server keeps open.
+   (Until fix 796e67c this was refuted by the HTTP/1.0 keep-alive + length-less body family; the stored decision is
+   now cleared at the end of the close-delimited body: Generated/WireGen.h10_nolength_clears_stored_keepalive.) *)
+Theorem C02_keepalive_agree : forall c r h keeps,
+  server_prepare c r = SHead h keeps ->
   (client_close h = false -> keeps = true) /\ (keeps && client_waits_eof (q_head c) h = false).
-Proof. exact keepalive_agree_partial. Qed.
-Print Assumptions C02_keepalive_agree_partial.
+Proof. exact keepalive_agree. Qed.
+Print Assumptions C02_keepalive_agree.
 
-Theorem C02_keepalive_agree_refuted :
-  exists c r h,
-    server_prepare c r = SHead h true /\ client_close h = true /\ client_waits_eof (q_head c) h = true /\
-    h10_close_delimited_kept c r = true.
-Proof. exact keepalive_agree_refuted. Qed.
-Print Assumptions C02_keepalive_agree_refuted.
+(* the formerly refuting instance: the server now closes, ending the close-delimited body the client reads *)
+Example C02_keepalive_h10_close_delimited_example :
+  h10_close_delimited_kept (mkCtx false true false) (mkResp 200 None false false) = true /\
+  server_prepare (mkCtx false true false) (mkResp 200 None false false) = SHead (mkHead false 200 None false CNone) false /\
+  client_close (mkHead false 200 None false CNone) = true /\ client_waits_eof false (mkHead false 200 None false CNone) = true.
+Proof. exact h10_family_now_closes. Qed.
+Print Assumptions C02_keepalive_h10_close_delimited_example.
+
+(* Expect: 100-continue (decisions regenerated from _update_expect_continue and _default_expect_handler): whenever the
+   client creates the waiter for `100 Continue`, the server sends one (since fix a7a14c4: not for HTTP/1.0 requests) *)
+Theorem C02_expect_continue_no_deadlock : forall expect v11,
+  continue_waiter_created expect v11 = true -> server_sends_100 expect v11 = true.
+Proof. exact expect_no_deadlock. Qed.
+Print Assumptions C02_expect_continue_no_deadlock.
 
 (* hypotheses satisfiable: HTTP/1.1 stream without length (chunked, kept open, reusable); HTTP/1.0 with a length *)
 Example C02_keepalive_agree_examples :
